@@ -40,28 +40,30 @@ func vchild(env []string, logFile string, args ...string) int {
 
 func main() {
 	scratch := tgen.Scratch()
-	// development-mode text file for the child's t.templ, as the generator's watch mode writes it
-	src, err := os.ReadFile(filepath.Join(tgen.VerifDir(), "harness/c14/_child/t.templ"))
-	if err != nil {
-		vlib.Fatal("%v", err)
-	}
-	_, out, _, err := tgen.Generate(string(src), "t.templ")
-	if err != nil {
-		vlib.Fatal("generate: %v", err)
-	}
+	// development-mode text files for the child's templ files, as the generator's watch mode writes them
 	devRoot := filepath.Join(scratch, "devroot")
 	os.MkdirAll(devRoot, 0o755)
 	os.MkdirAll(filepath.Join(scratch, "child"), 0o755)
 	os.Setenv("TEMPL_DEV_MODE_ROOT", devRoot)
-	// the runtime derives the name from the path of the compiled _templ.go file
-	goFile := filepath.Join(scratch, "child", "t_templ.go")
-	os.WriteFile(goFile, []byte("package main\n"), 0o644) // so that EvalSymlinks resolves the same way before the build
-	txt := templruntime.GetDevModeTextFileName(goFile)
-	if err := os.WriteFile(txt, []byte(strings.Join(out.Literals, "\n")), 0o644); err != nil {
-		vlib.Fatal("%v", err)
-	}
 	old := time.Date(2000, 1, 1, 0, 0, 0, 0, time.UTC)
-	os.Chtimes(txt, old, old)
+	for _, name := range []string{"t", "t2"} {
+		src, err := os.ReadFile(filepath.Join(tgen.VerifDir(), "harness/c14/_child/"+name+".templ"))
+		if err != nil {
+			vlib.Fatal("%v", err)
+		}
+		_, out, _, err := tgen.Generate(string(src), name+".templ")
+		if err != nil {
+			vlib.Fatal("generate: %v", err)
+		}
+		// the runtime derives the name from the path of the compiled _templ.go file
+		goFile := filepath.Join(scratch, "child", name+"_templ.go")
+		os.WriteFile(goFile, []byte("package main\n"), 0o644) // so that EvalSymlinks resolves the same way before the build
+		txt := templruntime.GetDevModeTextFileName(goFile)
+		if err := os.WriteFile(txt, []byte(strings.Join(out.Literals, "\n")), 0o644); err != nil {
+			vlib.Fatal("%v", err)
+		}
+		os.Chtimes(txt, old, old)
+	}
 	devEnv := []string{"TEMPL_DEV_MODE=true", "TEMPL_DEV_MODE_ROOT=" + devRoot}
 
 	tier := os.Args[1:]
